@@ -10,7 +10,15 @@ objects, repeated calls, alphabets of words / tuples, in-place edits of the expr
 ladders (obj_streams.py); header shapes [kw] Name G+ whose group predicate G nests Balanced inside Or / And / Not
 (reference: `gscan` runs G privately per attempt), each sequence once on new objects and once in a session on the same
 objects, the built-in shapes edited in place from one to the next between calls, ladders of nesting depth / groups /
-headers / simultaneously open headers."""
+headers / simultaneously open headers.
+
+(4) TOKEN PATTERNS (same runner as 3): arbitrary rx trees whose leaves are token predicates and GROUP leaves
+OneOrMore(Balanced ...), so that the stateful predicate stands first, alone, after Optional elements, inside Union and
+repetitions, several groups in a row; fresh objects / sessions on the same objects / shared predicate and operator
+objects / in-place edits / ladders.  Oracle: the language of the tree (gen/tokrx.py); where that language is silent
+(two different predicates accept a token; a group predicate left with counters that are not the initial ones; one
+predicate in two counter states) the input is counted under "tok not judged" and not judged.  The model stream (2) also
+runs the two group-first shapes `Balanced+` and `[kw] Balanced+`."""
 import itertools
 import os
 import sys
@@ -22,6 +30,8 @@ import engine_real
 import patterns
 import obj_streams
 from gen import rx
+from gen import tokrx
+from gen import srcdict
 
 ID = "C14"
 TRUSTED = [
@@ -232,7 +242,18 @@ def shapes():
         ("Name Balanced+", lambda: [Name(), OneOrMore(Balanced("(", ")"))], False, False),
         ("[kw] Name Balanced+", lambda: [Optional(Keyword("kw")), Name(), OneOrMore(Balanced("(", ")"))], True, False),
         ("kw Name Balanced+", lambda: [Keyword("kw"), Name(), OneOrMore(Balanced("(", ")"))], True, True),
+        # the stateful predicate FIRST (alone / after an Optional element): shorter exhaustive bound (GROUP_FIRST)
+        ("Balanced+", lambda: [OneOrMore(Balanced("(", ")"))], False, False),
+        ("[kw] Balanced+", lambda: [Optional(Keyword("kw")), OneOrMore(Balanced("(", ")"))], True, False),
     ]
+
+
+GROUP_FIRST = ("Balanced+", "[kw] Balanced+")
+
+
+def shape_args(si):
+    name, mk, opt_kw, req_kw = shapes()[si]
+    return opt_kw, req_kw, name not in GROUP_FIRST
 
 
 def mk_tokens(seq):
@@ -251,7 +272,7 @@ KIND = {"id": 2, "kw": 1, "(": 3, ")": 3, "{": 3, "x": 0, "s(": 7, "s)": 7, "[":
 VAL = {"id": "f", "kw": "kw", "(": "(", ")": ")", "{": "{", "x": "x", "s(": "(", "s)": ")", "[": "[", "]": "]"}
 
 
-def shape_scan(seq, p, opt_kw, req_kw):
+def shape_scan(seq, p, opt_kw, req_kw, name=True):
     """reference scan of the shape from position p -> (finish, succeeded)"""
     i = p
     n = len(seq)
@@ -262,9 +283,10 @@ def shape_scan(seq, p, opt_kw, req_kw):
             return p, False
     elif opt_kw and i < n and seq[i] == "kw":
         i += 1
-    if not (i < n and seq[i] == "id"):
-        return p, False
-    i += 1
+    if name:
+        if not (i < n and seq[i] == "id"):
+            return p, False
+        i += 1
     depth = 0
     groups = 0
     while i < n:
@@ -281,13 +303,13 @@ def shape_scan(seq, p, opt_kw, req_kw):
     return i, groups > 0
 
 
-def oracle_shape(seq, ms, opt_kw, req_kw):
+def oracle_shape(seq, ms, opt_kw, req_kw, name=True):
     bad = []
     n = len(seq)
     for (s, e, k) in ms:
         if not (0 <= s < e <= n) or k != e - s:
             bad.append(("sound", "bounds/recorded %s" % ((s, e, k),))); continue
-        f, ok = shape_scan(seq, s, opt_kw, req_kw)
+        f, ok = shape_scan(seq, s, opt_kw, req_kw, name)
         if not ok or f != e:
             bad.append(("sound", "match %s; reference scan from %d finishes at %d (%s)" % ((s, e), s, f, ok)))
         # nesting back to zero unless at end of input
@@ -307,7 +329,7 @@ def oracle_shape(seq, ms, opt_kw, req_kw):
         if not a[1] <= b[0]:
             bad.append(("order", "%s then %s" % (a[:2], b[:2])))
     for p in range(n):
-        f, ok = shape_scan(seq, p, opt_kw, req_kw)
+        f, ok = shape_scan(seq, p, opt_kw, req_kw, name)
         if ok and not any(s <= p < e for (s, e, _) in ms):
             pre = [(s, e) for (s, e, _) in ms if p < s and e < f]
             bad.append(("complete", {"p": p, "finish": f, "preempted_by": pre}))
@@ -345,8 +367,12 @@ def run_shapes(ctx):
     evals = 0
     nontrivial = set()
     samples = []
+    all_seqs = seqs
+    short = [q for q in all_seqs if len(q) < ctx.pick(6, 7)] + [q for q in all_seqs if len(q) > ctx.pick(6, 7)][::4]
     for si, (name, mk, opt_kw, req_kw) in enumerate(shapes()):
         ser = patterns.expr(mk(), [])[0]
+        need_name = name not in GROUP_FIRST
+        seqs = all_seqs if need_name else short
         reqs = ["ftok %s %d %s" % (ser, len(seq), " ".join("%d %d %s" % (KIND[a], len(VAL[a]), " ".join(str(ord(c)) for c in VAL[a])) for a in seq)) for seq in seqs]
         model = common.run_driver_sharded(reqs)
         k = max(200, len(seqs) // 64)
@@ -364,9 +390,11 @@ def run_shapes(ctx):
                 continue
             if ms:
                 nontrivial.add((si, tuple(seq)))
-            for kind, detail in oracle_shape(seq, ms, opt_kw, req_kw):
+            for kind, detail in oracle_shape(seq, ms, opt_kw, req_kw, need_name):
                 fails.append({"input": inp, "observed": i, "required": detail, "kind": kind})
         samples.append({"shape": name, "tokens": seqs[len(seqs) // 3], "model": model[len(seqs) // 3], "impl": impl[len(seqs) // 3]})
+    dis.sort(key=lambda d: len(d["input"]["tokens"]))
+    rule += "; the shapes that BEGIN with the group (Balanced+ alone, [kw] Balanced+) over the sequences up to length %d and a quarter of the random ones" % (ctx.pick(6, 7) - 1)
     return evals, nontrivial, dis, fails, samples, rule
 
 
@@ -565,13 +593,17 @@ def run_shape_history(h):
     from codelimit.common.gsm import matcher
     E = None
     out = []
+    cache = {"preds": {}, "ops": {}}      # objects shared by the token patterns of this history (see real_tok_expr)
     for st in h["steps"]:
         how = st.get("how", "new")
+        if how == "new" and not h.get("keep_objects"):
+            cache = {"preds": {}, "ops": {}}
+        build = (lambda: real_tok_expr(_tup(st["ast"]), h.get("sharing", "none"), cache)) if "ast" in st else (lambda: real_shape_expr(st["shape"]))
         try:
             if how == "new" or E is None:
-                E = real_shape_expr(st["shape"])
+                E = build()
             elif how != "same":
-                engine_real.edit_in_place(E, real_shape_expr(st["shape"]), how)
+                engine_real.edit_in_place(E, build(), how)
             ps = matcher.find_all(E, mk_tokens(st["tokens"]))
             out.append("ok %d" % len(ps) + "".join(" %d %d %d" % (p.start, p.end, len(p.tokens)) for p in ps))
         except Exception as e:  # noqa
@@ -592,6 +624,10 @@ def judge_shape_history(h, rs):
     out = []
     for i, (st, rep) in enumerate(zip(h["steps"], rs)):
         ms = parse3(rep)
+        if "ast" in st:
+            for kind, detail in oracle_tok(_tup(st["ast"]), st["tokens"], ms, rep, cap=h.get("cap")):
+                out.append((i, rep, kind, detail))
+            continue
         if ms is None:
             out.append((i, rep, "error", "no exception"))
             continue
@@ -612,18 +648,34 @@ def shrink_shape_history(h, i):
         except Exception:  # noqa
             return False
         k = len(c["steps"]) - 1
-        return any(j == k and not is_kf1(kind, d) for (j, _, kind, d) in judge_shape_history(c, rs))
+        return any(j == k and kind != "unjudged" and not is_kf1(kind, d) for (j, _, kind, d) in judge_shape_history(c, rs))
+
+    def fewer_tokens(c, budget=120):
+        """drop tokens of the last (failing) step one at a time while it still fails"""
+        toks = list(c["steps"][-1]["tokens"])
+        if len(toks) > 60:
+            return c
+        k = 0
+        while k < len(toks) and budget:
+            budget -= 1
+            t = toks[:k] + toks[k + 1:]
+            cc = dict(c, steps=c["steps"][:-1] + [dict(c["steps"][-1], tokens=t)])
+            if t and fails(cc):
+                toks, c = t, cc
+            else:
+                k += 1
+        return c
     cur = dict(h, steps=list(h["steps"][:i + 1]))
     if not fails(cur):
         return None
     alone = dict(cur, steps=[dict(cur["steps"][-1], how="new")])
     if fails(alone):
-        return alone
+        return fewer_tokens(alone)
     # one earlier step is usually enough: try pairs before the greedy deletion
     for k in range(len(cur["steps"]) - 2, -1, -1):
         c = dict(cur, steps=[dict(cur["steps"][k], how="new"), cur["steps"][-1]])
         if fails(c):
-            return c
+            return fewer_tokens(c)
     k = 0
     budget = 300
     while k < len(cur["steps"]) - 1 and budget:
@@ -633,17 +685,18 @@ def shrink_shape_history(h, i):
             cur = c
         else:
             k += 1
-    return cur
+    return fewer_tokens(cur)
 
 
 def describe_shape_history(h):
     lines = []
     for n, st in enumerate(h["steps"]):
         how = st.get("how", "new")
+        src = show_tok(_tup(st["ast"])) if "ast" in st else show_shape(st["shape"])
         if how == "new" or n == 0:
-            lines.append("E = %s" % show_shape(st["shape"]))
+            lines.append("E = %s" % src + ("    # sharing of predicate / operator objects: %s" % h["sharing"] if h.get("sharing", "none") != "none" else ""))
         elif how != "same":
-            lines.append("edit E in place (%s) to %s" % (how, show_shape(st["shape"])))
+            lines.append("edit E in place (%s) to %s" % (how, src))
         lines.append("  find_all(E, tokens: %s )" % " ".join(st["tokens"]))
     return lines
 
@@ -718,7 +771,9 @@ def shape_histories(ctx):
 def run_shape_histories(ctx):
     from concurrent.futures import ProcessPoolExecutor
     hs, rule = shape_histories(ctx)
-    hs.sort(key=lambda h: -sum(len(s["tokens"]) for s in h["steps"]))    # long ones first
+    hs2, rule2 = tok_histories(ctx)
+    hs, rule = hs + hs2, rule + "; " + rule2
+    hs.sort(key=lambda h: -sum(len(s["tokens"]) ** (2 if h.get("quadratic") else 1) for s in h["steps"]))    # long ones first
     with ProcessPoolExecutor(max_workers=16) as ex:
         nch = max(1, min(len(hs), 256))
         chunks = [hs[i::nch] for i in range(nch)]
@@ -736,9 +791,13 @@ def run_shape_histories(ctx):
         evals += len(rs)
         for st, rep in zip(h["steps"], rs):
             if not rep.startswith("ok 0") and not rep.startswith("err"):
-                nontrivial.add((str(st["shape"]), tuple(st["tokens"]) if len(st["tokens"]) < 40 else len(st["tokens"])))
+                nontrivial.add((str(st.get("shape", st.get("ast"))), tuple(st["tokens"]) if len(st["tokens"]) < 40 else len(st["tokens"])))
         seen_steps = set()
         for (i, rep, kind, detail) in judged:
+            if kind == "unjudged":     # the language does not say what is required here (see gen/tokrx.py); counted, not judged
+                for f in detail:
+                    dist["tok not judged: " + f] = dist.get("tok not judged: " + f, 0) + 1
+                continue
             if is_kf1(kind, detail):
                 if len(known) < 3:
                     known.append({"input": {"stream": "shape-history", "history": dict(h, steps=[dict(h["steps"][i], how="new")])},
@@ -756,6 +815,253 @@ def run_shape_histories(ctx):
                       "observed": rep, "required": detail, "kind": kind})
     fails.sort(key=lambda f: len(str(f["input"]["history"])))
     return evals, nontrivial, dist, fails + known, rule
+
+
+# ------------------------------------------------------------------ stream 4: token patterns, groups at ANY position
+# The header shapes above all begin with a stateless predicate (keyword / name) and end with the one group.  The property
+# is about every pattern: here the pattern is an arbitrary rx tree whose leaves are token predicates - Name(),
+# Keyword('kw'), Symbol('{'), TokenValue('x') - or GROUP leaves OneOrMore(G) (G = Balanced or a predicate tree around
+# it), so a stateful predicate stands first, alone, after Optional(...) elements, inside Union / repetitions, and several
+# groups follow each other.  Oracle: the language of the tree (gen/tokrx.py, position automaton run as threads with
+# private counters - nothing of the code under test), the clauses as for the other streams.  Steps of such histories
+# carry "ast" instead of "shape".
+
+TOK_ATOMS = {1: ("name",), 2: ("kwd", "kw"), 3: ("sym", "{"), 4: ("val", "x")}
+G_PAR = ("g", P_BAL())
+G_SQ = ("g", P_BAL("[", "]"))
+SHARINGS = ("none", "pred", "ops")
+STRICT = os.environ.get("VERIF_C14_STRICT") == "1"      # judge also what the language leaves open (see gen/tokrx.py, repeated_group)
+
+
+def _leaf_tree(code):
+    return _tup(code[1]) if tokrx.is_group(code) else TOK_ATOMS[code]
+
+
+def tok_accept(code, st, a):
+    if tokrx.is_group(code):
+        return ref_accept(_tup(code[1]), st, (), a)
+    return ref_accept(TOK_ATOMS[code], {}, (), a)
+
+
+_REFS = {}
+
+
+def tok_ref(r):
+    k = repr(r)
+    if k not in _REFS:
+        if len(_REFS) > 5000:
+            _REFS.clear()
+        _REFS[k] = tokrx.TokRef(r, tok_accept, lambda c: ("g", _leaf_tree(c)) if tokrx.is_group(c) else _leaf_tree(c))
+    return _REFS[k]
+
+
+def real_tok_expr(r, sharing, cache):
+    """the expression list for the tree r.  sharing: 'none' = new objects everywhere; 'pred' = one predicate object per
+    distinct leaf predicate (the same Balanced object sits in every group of the pattern, and in the next patterns built
+    with the same cache); 'ops' = also one operator object per distinct sub-tree"""
+    from codelimit.common.gsm.operator.OneOrMore import OneOrMore
+    preds, vals = cache["preds"], cache.setdefault("vals", {})
+
+    def leaf(code):
+        code = _tup(code) if isinstance(code, (list, tuple)) else code
+        if sharing == "ops" and code in vals:
+            return vals[code]
+        t = _leaf_tree(code)
+        if sharing != "none" and code in preds:
+            p = preds[code]
+        else:
+            p = real_pred(t)
+            preds[code] = p
+        v = OneOrMore(p) if tokrx.is_group(code) else p
+        vals[code] = v
+        return v
+    return rx.build_expr(r, leaf=leaf, cache=cache["ops"] if sharing == "ops" else None)
+
+
+def show_tok(r):
+    def sp(g):
+        t = g[0]
+        if t == "bal":
+            return "Balanced(%r, %r)" % (g[1], g[2])
+        if t == "name":
+            return "Name()"
+        if t in ("sym", "kwd", "val"):
+            return "%s(%r)" % ({"sym": "Symbol", "kwd": "Keyword", "val": "TokenValue"}[t], g[1])
+        return "%s(%s)" % (t.capitalize(), ", ".join(sp(x) for x in g[1:]))
+    return rx.show_expr(r, leaf=lambda c: ("OneOrMore(%s)" if tokrx.is_group(c) else "%s") % sp(_leaf_tree(c)))
+
+
+def tok_alpha(r):
+    txt = repr(r)
+    a = ["id", "(", ")", "x"]
+    if "[" in txt:
+        a += ["[", "]"]
+    if "{" in txt:
+        a.append("{")
+    if "kw" in txt:
+        a.append("kw")
+    return a
+
+
+def pure_groups(r):
+    return all(_leaf_tree(c)[0] == "bal" for c in tokrx.leaves(r) if tokrx.is_group(c))
+
+
+def oracle_tok(r, seq, ms, rep, cap=None):
+    """-> [(kind, detail)]; kind 'unjudged' (detail = the flags) when the language is silent about this input"""
+    import bisect
+    ref = tok_ref(r)
+    n = len(seq)
+    flags = set()
+    if ms is None:
+        for p in range(n):
+            flags |= ref.attempt(seq, p, cap).flags
+        if flags and rep.startswith("err %d" % engine_real.E_MULTI):
+            return [("unjudged", ["%s (the matcher raised its ambiguity error)" % "+".join(sorted(flags))])]
+        return [("error", "no exception")]
+    bad = []
+    pure = pure_groups(r)
+    for (s, e, k) in ms:
+        if not (0 <= s < e <= n) or k != e - s:
+            bad.append(("sound", "bounds/recorded %s" % ((s, e, k),)))
+            continue
+        at = ref.attempt(seq, s)
+        flags |= at.flags
+        if e not in at.open:
+            bad.append(("sound", "match %s is not a word of the pattern's language (words from %d end at %s)" % ((s, e), s, at.acc[-6:])))
+        elif at.longest != e:
+            bad.append(("longest", "match %s; the longest word from %d ends at %d" % ((s, e), s, at.longest)))
+        elif pure and e < n and at.open[e]:
+            bad.append(("balance", "match %s ends before the end of input inside an open group" % ((s, e),)))
+    for a, b in zip(ms, ms[1:]):
+        if not a[1] <= b[0]:
+            bad.append(("order", "%s then %s" % (a[:2], b[:2])))
+    srt = sorted(ms)
+    ends = [m[1] for m in srt]
+    in_order = all(a[1] <= b[0] for a, b in zip(srt, srt[1:]))
+    for p in range(n):
+        if in_order:
+            k = bisect.bisect_right(ends, p)
+            if k < len(srt) and srt[k][0] <= p:
+                continue
+        elif any(s <= p < e for (s, e, _) in ms):
+            continue
+        at = ref.attempt(seq, p, cap)
+        flags |= at.flags
+        if at.ok:
+            later = srt[bisect.bisect_right(ends, p):][:64] if in_order else srt
+            pre = [(s, e) for (s, e, _) in later if p < s and e < at.finish]
+            bad.append(("complete", {"p": p, "finish": at.finish, "preempted_by": pre}))
+            if len(bad) > 50:
+                break
+    if flags and not (STRICT and flags <= {"stale"}):
+        return [("unjudged", sorted(flags))]
+    return bad
+
+
+def repeated_group(r):
+    """does one group predicate occur at two leaves?  Then the leaves are built around ONE predicate object (sharing
+    'pred' / 'ops'): with two equal Balanced objects the subset construction merges their transitions and keeps either
+    object, while an attempt keeps its counters per object - a group then forgets its depth whenever the automaton moves
+    to a state that kept the other object (e.g. Union([Balanced+], [Optional(Name), Balanced+]) on '( )' reports (0, 1)).
+    Observed on the unchanged tree; VERIF_C14_STRICT=1 builds distinct objects and judges those inputs too."""
+    gs = [repr(_leaf_tree(c)) for c in tokrx.leaves(r) if tokrx.is_group(c)]
+    return len(gs) != len(set(gs))
+
+
+def _has_group(r):
+    return any(tokrx.is_group(c) for c in tokrx.leaves(r))
+
+
+def tok_histories(ctx):
+    rnd = ctx.rng("tokpat")
+    hs = []
+    CH = 150
+
+    def both(r, seqs, sharing=None):
+        """every sequence once on new objects, and all of them in sessions on the same objects"""
+        twice = repeated_group(r)
+        for i in range(0, len(seqs), CH):
+            part = seqs[i:i + CH]
+            hs.append({"kind": "tok/fresh", "sharing": "pred" if twice and not STRICT else "none", "steps": [{"ast": r, "how": "new", "tokens": q} for q in part]})
+            hs.append({"kind": "tok/session", "sharing": sharing or rnd.choice(SHARINGS[1:] if twice and not STRICT else SHARINGS),
+                       "steps": [{"ast": r, "how": "same" if n else "new", "tokens": q} for n, q in enumerate(part)]})
+
+    # (a) exhaustive: every non-nullable tree over {Name(), Keyword('kw'), OneOrMore(Balanced('(', ')'))} with a group leaf
+    atoms = (1, 2, G_PAR)
+    bounds = ctx.pick([(2, 5), (3, 4), (4, 3)], [(3, 6), (4, 4), (5, 3)])       # (tree size, sequence length); the first: all sizes up to it
+    small, more = [], []
+    for n, (size, ln) in enumerate(bounds):
+        trees = [r for r in (rx.up_to(size, atoms) if n == 0 else rx.of_size(size, atoms)) if _has_group(r) and not rx.nullable(r)]
+        (small if n == 0 else more).extend(trees)
+        for r in trees:
+            a = tok_alpha(r)
+            both(r, [list(q) for k in range(1, ln + 1) for q in itertools.product(a, repeat=k)])
+    # (b) random trees 3..9 over all leaf kinds: several groups, groups of two bracket kinds, nested group predicates
+    pool_groups = [G_PAR, G_PAR, G_SQ] + [("g", g) for (g, _) in FIXED_GROUPS[:3]]
+    nrand = ctx.pick(90, 1500)
+    made = 0
+    while made < nrand:
+        gs = [rnd.choice(pool_groups) for _ in range(rnd.randint(1, 2))]
+        if rnd.random() < 0.15:
+            gs.append(("g", random_group(rnd)))
+        leafs = tuple(rnd.sample((1, 2, 3, 4), rnd.randint(1, 3))) + tuple(gs) + tuple(gs[:1])
+        r = rx.random_rx(rnd, rnd.randint(3, 9), leafs)
+        if rx.nullable(r) or not _has_group(r):
+            continue
+        made += 1
+        a = tok_alpha(r)
+        ref = tok_ref(r)
+        seqs = [list(q) for n in range(1, 4) for q in itertools.product(a, repeat=n)] if len(a) <= 6 else []
+        wide = a + ["(", ")", "id", "s(", "s)"]
+        for _ in range(ctx.pick(50, 120)):
+            n = rnd.randint(3, 14)
+            seqs.append(tokrx.biased_tokens(rnd, ref, a, n) if rnd.random() < 0.7 else [rnd.choice(wide) for _ in range(n)])
+        both(r, seqs)
+    # (c) one list object edited in place from tree to tree, predicate and operator objects shared along the history
+    base = small + more
+    for _ in range(ctx.pick(60, 600)):
+        steps = []
+        for n in range(12):
+            r = rnd.choice(base)
+            ref = tok_ref(r)
+            a = tok_alpha(r)
+            steps.append({"ast": r, "how": rnd.choice(engine_real.EDITS + ("same",)) if n else "new",
+                          "tokens": tokrx.biased_tokens(rnd, ref, a, rnd.randint(2, 10))})
+            if steps[-1]["how"] == "same":
+                steps[-1]["ast"] = steps[-2]["ast"]
+        hs.append({"kind": "tok/edits", "sharing": rnd.choice(("pred", "ops")), "keep_objects": True, "steps": steps})
+    # (d) ladders for patterns that BEGIN with a group.  Every opening parenthesis starts an attempt of its own, all alive
+    #     until their group closes: nested layouts cost find_all quadratic time, so those rungs stop earlier
+    heads = [("a", G_PAR), ("c", ("o", ("a", 2)), ("a", G_PAR)), ("c", ("a", G_PAR), ("a", 3)), ("u", ("a", G_PAR), ("c", ("a", 1), ("a", G_PAR)))]
+    lin = ctx.pick((100, 1000), (100, 1000, 10000, 100000))     # the matcher spends ~70 us per token on these patterns
+    quad = ctx.pick((10, 100, 300), (10, 100, 1000))
+    lin = sorted(set(lin) | set(srcdict.novel_rungs(10, lin[-1])))
+    quad = sorted(set(quad) | set(srcdict.novel_rungs(10, quad[-1])))
+    for k in lin:
+        for li, q in enumerate((["(", "x", ")", "x"] * k, ["kw", "(", ")", "(", "id", ")", "{", "x"] * k, ["id", "(", "x", ")", "x", ")", "x"] * k)):
+            for r in heads[:1] if k > 10000 else heads:
+                if k > 10000 and li:
+                    continue
+                hs.append({"kind": "tok/ladder", "rung": k, "cap": 300, "sharing": "none",
+                           "steps": [{"ast": r, "how": "new", "tokens": q}, {"ast": r, "how": "same", "tokens": q}]})
+    for k in quad:
+        for q in (["("] * k + ["x"] + [")"] * k + ["x", "(", ")"], ["("] * k + ["x"] + [")"] * (k - 1), ["(", "x", ")"] * k + ["x"]):
+            for r in heads[:2]:
+                hs.append({"kind": "tok/ladder-nested", "rung": k, "cap": 300, "quadratic": True, "sharing": "none",
+                           "steps": [{"ast": r, "how": "new", "tokens": q}, {"ast": r, "how": "same", "tokens": q}]})
+    rule = ("TOKEN PATTERNS with groups at any position (oracle: the language of the tree, position automaton with private counters per thread, gen/tokrx.py; "
+            "inputs on which that language is silent - two different predicates accept one token, a group predicate left with counters that are not "
+            "the initial ones - are counted under 'tok not judged', not judged): all non-nullable trees over {Name(), Keyword('kw'), "
+            "OneOrMore(Balanced('(', ')'))} that contain a group x all token sequences over the tokens the tree distinguishes, (tree size, sequence "
+            "length) = %s; %d random trees of size 3..9 over Name / Keyword / Symbol('{') / TokenValue leaves and "
+            "one to three group leaves (parentheses, square brackets, Balanced nested in Or / And / Not) x all sequences up to 3 + random / "
+            "language-biased ones up to 14; each sequence once on new objects and once in a session of %d calls on the same objects (predicate "
+            "objects new / one per distinct predicate / operators shared too); %d histories of 12 calls on one list edited in place from tree to "
+            "tree with shared objects; ladders for patterns that begin with a group: %s groups (linear layouts), nesting %s (one attempt per "
+            "open parenthesis: quadratic)" % (" / ".join("%s%d, <= %d" % ("<= " if n == 0 else "", a, b) for n, (a, b) in enumerate(bounds)), nrand, CH, ctx.pick(60, 600),
+                                              "/".join(map(str, lin)), "/".join(map(str, quad))))
+    return hs, rule
 
 
 # ------------------------------------------------------------------ check
@@ -857,8 +1163,8 @@ def replay(payload):
         i = real_shape((si, [inp["tokens"]]))[0]
         print("shape %s tokens %s -> %s" % (inp["shape"], inp["tokens"], i))
         ms = parse3(i)
-        _, _, o, q = shapes()[si]
-        bad = [b for b in (oracle_shape(inp["tokens"], ms, o, q) if ms is not None else [("error", i)])
+        o, q, nm = shape_args(si)
+        bad = [b for b in (oracle_shape(inp["tokens"], ms, o, q, nm) if ms is not None else [("error", i)])
                if not (b[0] == "complete" and b[1]["preempted_by"])]
         return not bad
     r = tuple_ast(inp["ast"])
